@@ -1,6 +1,9 @@
 package vstate
 
 import (
+	"github.com/NethermindEth/juno/db"
+	"sort"
+	"bytes"
 	"fmt"
 	"time"
 
@@ -146,7 +149,29 @@ func runOvertaken(r *lib.Run, idx int) {
 				k = 1 + rng.IntN(nreads)
 			}
 		}
-		fired, inside := rec.Overtake(k, 300*time.Millisecond, read, write)
+		// directed position (half of the trials that have one): right after the reader fetched the
+		// record of a class the block being reverted / stored declares - whatever the reader does
+		// with that record afterwards (e.g. put it into a cache shared by all readers) happens after
+		// the write has completed
+		at := func(n int, _ []byte) bool { return n == k }
+		var target *chain.Blk
+		if store {
+			target = full.Blocks[height]
+		} else {
+			target = full.Blocks[height-1]
+		}
+		if len(target.Classes) > 0 && rng.IntN(2) == 0 && !headReader {
+			var keys [][]byte
+			for h := range target.Classes {
+				hh := h
+				keys = append(keys, db.ClassKey(&hh))
+			}
+			sort.Slice(keys, func(i, j int) bool { return bytes.Compare(keys[i], keys[j]) < 0 })
+			want := keys[rng.IntN(len(keys))]
+			at = func(_ int, key []byte) bool { return bytes.Equal(key, want) }
+			r.Count("overtaken.trials_aimed_at_the_record_of_a_class_the_written_block_declares", 1)
+		}
+		fired, inside := rec.OvertakeAt(at, 300*time.Millisecond, read, write)
 		if !fired {
 			write()
 			r.Count("overtaken.reader_finished_before_the_chosen_read", 1)
@@ -172,6 +197,27 @@ func runOvertaken(r *lib.Run, idx int) {
 			height--
 		}
 		done = append(done, s)
+		// the quiescent node after the overlap: head view and the by-number view of the new head
+		// (a reader that overlapped the write must not have left anything behind - a cache entry,
+		// a memoised head - that later readers are served)
+		if fired && height > 0 {
+			q := &checker{r: r, idx: idx, backend: backend, steps: append([]step{}, done...), ps: ps, builder: c.builder}
+			nh := uint64(height - 1)
+			if sr, closer, err := node.BC.HeadState(); err != nil {
+				q.fail("unexpected-error", "head-after-overlap", nh, nh, "open", nil, nil, "state reader", err.Error())
+			} else {
+				q.checkView("head-after-overlap", nh, nh, sr, full.States[nh], prev)
+				closer()
+			}
+			if sr, closer, err := node.BC.StateAtBlockNumber(nh); err != nil {
+				q.fail("unexpected-error", "number-after-overlap", nh, nh, "open", nil, nil, "state reader", err.Error())
+			} else {
+				q.checkView("number-after-overlap", nh, nh, sr, full.States[nh], prev)
+				closer()
+			}
+			r.Eval(q.reads)
+			r.Count("overtaken.quiescent_rechecks_after_an_overlap", 1)
+		}
 	}
 	r.Count("overtaken.histories", 1)
 	r.Case(fmt.Sprintf("overtaken/%s/%v/%s", backend, done, full.Tip().Block.Hash.String()))
